@@ -427,3 +427,27 @@ Theorem code_runs_only_from_opened cfg l :
   (path_permissions_ok (c_who cfg) (c_chain cfg) = false ->
    r_status (load cfg l) = Refused /\ r_opened (load cfg l) = [] /\ r_modules (load cfg l) = [] /\ r_inits (load cfg l) = []).
 Proof. split; [apply listed_was_opened|]. split; [apply init_was_opened|apply refused_nothing]. Qed.
+
+(* ------------------------------------------------------------------ warts of the code that the model carries (each one
+   confirmed on the real program by the correspondence run; none contradicts the property text) *)
+(* a -M module without options for this personality has its init() run twice: the second pass over the
+   whole list does not skip modules that are already initialised, and an empty registration cannot conflict *)
+Example wart_forced_optionless_init_twice :
+  r_inits (load (cfg0 [nameA]) [okfile 1 (mk misc_type nameA 100 3 []); okfile 2 (mk misc_type nameB 100 3 [opt_ 88])]) = [1; 1; 2].
+Proof. vm_compute. reflexivity. Qed.
+
+(* a failing init() leaves the module's options registered: nobody serves -X, and the next module that
+   offers -X is refused because of it *)
+Example wart_failed_init_keeps_options :
+  let bad := {| m_type := misc_type; m_name := nameA; m_prio := 100%Z; m_pers := 3; m_opts := [opt_ 88]; m_init_ok := false |} in
+  let r := load (cfg0 []) [okfile 1 bad; okfile 2 (mk misc_type nameB 100 3 [opt_ 88])] in
+  r_active r = [] /\ r_optstr r = [104; 76; 78; 88] /\ r_dispatch r 88 = None.
+Proof. vm_compute. repeat split; reflexivity. Qed.
+
+(* mod_process_opt does not look at an option's personality: -X registered by module 2 (for DSH) is
+   handed to module 1, whose -X is a PCP-only option and was never registered *)
+Example wart_cross_personality_dispatch :
+  let r := load (cfg0 []) [okfile 1 (mk misc_type nameA 100 3 [{| o_letter := 88; o_arg := false; o_pers := 2 |}]);
+                           okfile 2 (mk misc_type nameB 100 3 [{| o_letter := 88; o_arg := false; o_pers := 1 |}])] in
+  r_regs r = [(2, 88, false)] /\ r_dispatch r 88 = Some 1.
+Proof. vm_compute. repeat split; reflexivity. Qed.
